@@ -124,9 +124,18 @@ pub fn shard_main(prop: &str, registry: &[Entry]) {
         }
         reg.insert(e.id, e);
     }
-    let mut sink = check::Sink::new(&opts);
-    check::run(&opts, &corpus, &reg, &mut sink);
-    sink.finish();
+    // deep-nesting inputs need more than the default main-thread stack in a debug build
+    std::thread::scope(|sc| {
+        std::thread::Builder::new()
+            .stack_size(1 << 30)
+            .spawn_scoped(sc, || {
+                real::silence_panics();
+                let mut sink = check::Sink::new(&opts);
+                check::run(&opts, &corpus, &reg, &mut sink);
+                sink.finish();
+            })
+            .unwrap();
+    });
     PROGRESS_CASE.store(usize::MAX, Ordering::Relaxed);
 }
 
